@@ -19,7 +19,7 @@ Init == c \in {[fn |-> "exp_log", v |-> [ax |-> a, sg |-> s, ang |-> g]] : a \in
            \cup {[fn |-> "rel", A |-> Pose(r, <<1000000, -2000000, 3000000>>), B |-> Pose(RMul(r, 7), <<1000000, -2000000, 3000000>>)] : r \in Rots}
            \cup {[fn |-> "sim3_inv", A |-> A, s |-> s] : A \in Poses, s \in {<<1, 4>>, <<1, 2>>, <<1, 1>>, <<2, 1>>, <<4, 1>>, <<1024, 1>>}}
            \cup {[fn |-> "angle", a |-> a, b |-> b] : a \in O24, b \in Rots}
-           \cup {[fn |-> "member", r |-> r, what |-> w] : r \in O48, w \in {"plain", "scaled", "shear", "badrow", "smallshear", "tinyrow"}}
+           \cup {[fn |-> "member", r |-> r, what |-> w] : r \in O48, w \in {"plain", "f32", "scaled", "shear", "badrow", "smallshear", "tinyrow"}}
            \* Sim(3) matrices stored with an integer dtype (hand-written axis-aligned matrices, as the pinned tests do for SE(3))
            \cup {[fn |-> "sim3_inv", A |-> A, s |-> s, intdtype |-> TRUE] : A \in {Pose(r, <<1, -2, 3>>) : r \in Rots}, s \in {<<2, 1>>, <<4, 1>>}}
 Next == UNCHANGED c
